@@ -119,6 +119,17 @@ func (tds *Conn) NewChannel() (*Channel, error) {
 		return tdsChan, nil
 	}
 
+	// Do not leave a channel behind that nobody owns if the setup fails
+	// - packets the server still sends for it would pile up in it.
+	setupOk := false
+	defer func() {
+		if !setupOk {
+			tds.tdsChannelsLock.Lock()
+			delete(tds.tdsChannels, channelId)
+			tds.tdsChannelsLock.Unlock()
+		}
+	}()
+
 	// Send packets to setup logical channel
 	setup := NewPacket(PacketHeaderSize)
 	setup.Header.Length = PacketHeaderSize
@@ -150,6 +161,7 @@ func (tds *Conn) NewChannel() (*Channel, error) {
 	}
 
 	tdsChan.Reset()
+	setupOk = true
 	return tdsChan, nil
 }
 
